@@ -611,13 +611,62 @@ async fn run_async(args: &Args) -> anyhow::Result<Report> {
     let fresh = evaluate("fresh", &views, &keys, None, &mut rep).await?;
     route_failure_phase(&views, &keys, &mut rep).await?;
 
+    // ---- swap transition (every third view with a dead node and another live peer): a dead node X answers again in the very
+    // status-check window in which a live peer Y runs into the 15 s rule, so the NUMBER of live nodes is the same before and after
+    // while their positions are not. Y's last sign of life is sent at s, X's first one at s + 14.9 s: the check that marks Y
+    // (first tick after s + 15 s) is the first one after X's return unless a tick falls into [s + 14.9, s + 15] (3 % of phases).
+    let mut swapped: BTreeSet<usize> = BTreeSet::new();
+    {
+        let mut plan: Vec<(usize, u64, u64)> = vec![];
+        for (i, v) in views.iter_mut().enumerate() {
+            let dead = v.dead();
+            if i % 3 != 1 || dead.is_empty() || v.settled_at.is_none() {
+                continue;
+            }
+            let live_peers: Vec<u64> = v.ids.iter().copied().filter(|x| *x != v.local && !dead.contains(x)).collect();
+            if live_peers.is_empty() {
+                continue;
+            }
+            let x = *dead.iter().next().unwrap();
+            let y = live_peers[i % live_peers.len()];
+            v.inner.do_send(NodeManageRequest::ActiveNode(y));
+            v.starved.borrow_mut().insert(y);
+            plan.push((i, x, y));
+        }
+        if !plan.is_empty() {
+            tokio::time::sleep(Duration::from_millis(14_900)).await;
+            for (i, x, y) in &plan {
+                let v = &mut views[*i];
+                let before = v.dead();
+                v.starved.borrow_mut().remove(x);
+                v.inner.do_send(NodeManageRequest::ActiveNode(*x));
+                v.history.push(format!("dead={:?}; {} answered again in the status-check window in which {} timed out", before, x, y));
+                swapped.insert(*i);
+            }
+            tokio::time::sleep(Duration::from_millis(4_600)).await;
+            for (i, _x, _y) in &plan {
+                let v = &views[*i];
+                let o = observe(v, &keys).await?;
+                if o.snap.invalid != v.dead() {
+                    rep.count("swapped_views_not_in_the_expected_pattern", 1);
+                    continue;
+                }
+                rep.count("swapped_views_observed", 1);
+                if judge_local("swapped", "after-one-node-returned-while-another-timed-out", v, &o, &keys, &mut rep) {
+                    rep.shape(format!("swapped {} n={} dead={:?}", v.family, v.n(), v.dead()));
+                }
+                compare_with_fresh("swapped", "after-one-node-returned-while-another-timed-out", v, &o, &keys, &fresh, &mut rep);
+            }
+        }
+    }
+
     if !thorough {
         // ---- revive-only transition: the smallest dead node of every view comes back (its pings arrive again); after the next
         // tick the view must be indistinguishable from the fresh view with the same liveness pattern
         let mut moved: Vec<usize> = vec![];
         for (i, v) in views.iter_mut().enumerate() {
             let dead = v.dead();
-            if dead.is_empty() || v.settled_at.is_none() {
+            if dead.is_empty() || v.settled_at.is_none() || swapped.contains(&i) {
                 continue;
             }
             let revive = *dead.iter().next().unwrap();
